@@ -63,7 +63,14 @@ OutcomeClauses(r) ==
            \/ r.dagPreUnmet /\ r.mails # <<>>
            \/ ~r.finalStatusInSubject
           THEN {"C04_RealMailDisagrees"} ELSE {})
-Clauses(r) == IF r.kind = "kill" THEN KillClauses(r) ELSE IF r.kind = "truth" THEN TruthClauses(r)
+\* kind "window" (C05, the start barrier on the real command executor): the worker of a real step was held after its own
+\* cancel check (before / after the executor was created) while the stop request was made
+WindowClauses(r) ==
+  IF r.infra # "" THEN {"INFRA"}
+  ELSE IF r.variant = "control" THEN (IF ~r.started THEN {"INFRA"} ELSE {})
+  ELSE (IF r.started THEN {"C05_StartAfterStopRealExecutor"} ELSE {})
+       \cup (IF r.status # "canceled" \/ r.run # "canceled" THEN {"C05_StoppedRunNotCanceled"} ELSE {})
+Clauses(r) == IF r.kind = "window" THEN WindowClauses(r) ELSE IF r.kind = "kill" THEN KillClauses(r) ELSE IF r.kind = "truth" THEN TruthClauses(r)
               ELSE IF r.kind = "stop" THEN StopClauses(r) ELSE IF r.kind = "outcome" THEN OutcomeClauses(r) ELSE SecondClauses(r)
 Init == l = 1 /\ bad = 0
 Next == /\ l <= Len(Trace) /\ l' = l + 1
